@@ -22,6 +22,7 @@ def explore(ctx):
     grid_common.reused_adjacency_stream(ctx, 120 if ctx.quick else 1200)
     long_axis_stream(ctx)
     infinity_stream(ctx)
+    cc.infinity_tie_stream(ctx, 200 if ctx.quick else 2000, 'c03_inf_tie')
 
 
 def infinity_stream(ctx):
